@@ -1563,8 +1563,8 @@ func ConcPaths(fn *ssa.Function, cfg ConcCfg) (seqs []string, truncated bool) {
 						onStack = true
 					}
 				}
-				if onStack || blk.Parent() == h {
-					break
+				if onStack || blk.Parent() == h || h == fn {
+					break // recursion (into the explored function itself too): the call stays opaque
 				}
 				ns := st.clone()
 				args := Args(x)
